@@ -2,6 +2,8 @@
 # Re-run every kept seeded change (seeded/<id>) against the quick check of the property it targets and report the ones that are
 # no longer caught. Seeds whose meta.json says they are not claimed / caught by a sibling only are listed separately.
 #   usage: tools/seed_regression.sh [lanes]      (default 4 lanes; ~1.5 min per seed and lane)
+#   REFRESH=1: the counter-example found for each seed replaces its regression tape replays/<Cxx>/<harness>-seed-<id>.tape (tapes decode
+#   differently after the generators were extended; a tape that no longer shows its seed is only dead weight)
 cd "$(dirname "$0")/.."
 LANES=${1:-4}
 OUT=$(mktemp -d /tmp/frigg-seedreg.XXXXXX)
@@ -15,7 +17,8 @@ import json; m=json.load(open('$d/meta.json')); o=m.get('outcome','')
 import re
 s=re.search(r'sibling (?:check )?(C\d+)', o) or re.search(r'Caught by (C\d+)', o)
 print(s.group(1) if s and 'not caught by' in o else '')")
-      res=$(tools/seedcheck.sh $d $P $extra 2>&1 | grep "check C" | tr '\n' ' ' | cut -c1-200)
+      id=$(basename $d)
+      res=$(SAVE=${REFRESH:+$id} tools/seedcheck.sh $d $P $extra 2>&1 | grep "check C" | tr '\n' ' ' | cut -c1-200)
       echo "$d $res"
     done < $f > $f.out ) &
 done
